@@ -43,6 +43,9 @@ type world struct {
 	Step *pipeline.CommandStep
 	Penv map[string]string
 	Repo string
+	// Canon: the canonical spelling of each plugin source, known by rule from the generator (never asked
+	// of the library: the equivalence of the two spellings is what is being checked)
+	Canon map[string]string `json:"-"`
 }
 
 func (w world) sf() *signature.CommandStepWithInvariants {
@@ -55,7 +58,7 @@ func (w world) show() string {
 }
 
 func (w world) clone() world {
-	return world{Step: sgen.CopyStep(w.Step), Penv: sgen.CopyStrMap(w.Penv), Repo: w.Repo}
+	return world{Step: sgen.CopyStep(w.Step), Penv: sgen.CopyStrMap(w.Penv), Repo: w.Repo, Canon: w.Canon}
 }
 
 func signTap(ctx context.Context, kp keys.Pair, w world) (*pipeline.Signature, []byte, error) {
@@ -136,7 +139,7 @@ func respell(t *rapid.T, w world) (world, []string) {
 	for _, p := range b.Step.Plugins {
 		p.Config = rebuildAny(t, p.Config)
 		if rapid.Bool().Draw(t, "canonspell") {
-			if fs := p.FullSource(); fs != p.Source {
+			if fs, known := w.Canon[p.Source]; known && fs != p.Source {
 				p.Source = fs
 				how = append(how, "plugin-source-canonical")
 			}
@@ -748,8 +751,8 @@ func TestPropPayload(t *testing.T) {
 	pool := keys.Pool()
 	ev.Check(t, 3000, 20000, func(t *rapid.T) {
 		g := sgen.New(t, sgen.Opts{BigMaps: rapid.IntRange(0, 2).Draw(t, "big") == 0})
-		step, _ := g.Step()
-		a := world{Step: step, Penv: g.EnvMap("penv", 4), Repo: g.RepoURL()}
+		step, canonOf := g.Step()
+		a := world{Step: step, Penv: g.EnvMap("penv", 4), Repo: g.RepoURL(), Canon: canonOf}
 		kp := pool[rapid.IntRange(0, 1).Draw(t, "fast")]
 		if rapid.IntRange(0, 5).Draw(t, "anykey") == 0 {
 			kp = rapid.SampledFrom(pool).Draw(t, "key")
